@@ -459,9 +459,12 @@ class timestamp( object ):
 
         """
         try:
-            terms		= str( s ).translate( cls._timeseps ).split()
-            if not terms[-1].isdigit(): # Hmm; Last term isn't digits; must be a timezone.
-                terms,tzinfo	= terms[:-1],terms[-1]
+            words		= str( s ).split()
+            if not words[-1].translate( cls._timeseps ).replace( ' ', '' ).isdigit():
+                # Hmm; Last word isn't date/time digits; must be a timezone (which may itself
+                # contain separators, eg. America/Port-au-Prince, Etc/GMT-3)
+                words,tzinfo	= words[:-1],words[-1]
+            terms		= ' '.join( words ).translate( cls._timeseps ).split()
             is_dst		= None
             if tzinfo is None:
                 tzinfo		= cls.UTC
